@@ -41,7 +41,7 @@ RUNTIME = {
             ('random', 'abort', 4000, 'trace'), ('sweep', 'phasew', 3, 'trace'),
             ('sweep', 'window', 3, 'trace'),
             ('suite',)],
-    'C08': [('random', 'abort', 12000, 'trace'), ('random', 'generic', 6000, 'trace'),
+    'C08': [('random', 'cwin', 4000, 'trace'), ('random', 'abort', 12000, 'trace'), ('random', 'generic', 6000, 'trace'),
             ('random', 'nesting', 4000, 'trace'), ('sweep', 'phase', 2, 'trace'),
             ('sweep', 'cube', 2, 'trace'), ('sweep', 'phasew', 2, 'trace')],
     'C09': [('random', 'forever', 16000, 'trace'), ('random', 'generic', 5000, 'trace'),
